@@ -62,6 +62,10 @@ sim::Config sim_config(const Plan& p, bool verbose);
 // copy kernel stats/counters into a result (call before sim::end())
 void collect(Result& r);
 
+// ask the worker loop to end after the current run (exit code 5): the orchestrator starts a fresh process at the next
+// run index. Used by harnesses that abandon parked threads (pipelined connections are never torn down).
+void request_recycle();
+
 int main_(int argc, char **argv, Harness& h);
 
 } // namespace drv
